@@ -466,10 +466,21 @@ class Run(object):
 
     def op_offsetof(self, kind, i):
         ctype, fmt, size = KINDS[kind][:3]
+        if isinstance(i, list):
+            # [sign, q]: an index at or just beyond the point where i * sizeof(T) leaves the ssize_t range
+            lim = (2 ** 63 - 1) // size if i[0] > 0 else -((2 ** 63) // size)
+            i = lim + i[0] * i[1]
+        fits = -2 ** 63 <= i * size <= 2 ** 63 - 1
         try:
             got = self.ffi.offsetof(ctype + '[]', i)
         except Exception as e:
+            if not fits:
+                # the product is not representable: a refusal (whatever the exception) is the only right answer
+                self.out.probe('offsetof_beyond_ssize_t_refused')
+                return
             raise Violation('C16.4', "ffi.offsetof('%s[]', %d) raised %s: %s" % (ctype, i, type(e).__name__, e))
+        if fits and abs(i) > 2 ** 40:
+            self.out.probe('offsetof_huge_index_that_still_fits')
         if got != i * size or self.ffi.sizeof(ctype) != size:
             raise Violation('C16.4', "ffi.offsetof('%s[]', %d) == %d, expected %d" % (ctype, i, got, i * size))
 
@@ -591,7 +602,8 @@ class C16(core.Check):
             elif n == 'diff':
                 ops.append(['diff', k, rng.below(1000)])
             elif n == 'offsetof':
-                ops.append(['offsetof', rng.choice(KNAMES), rng.choice([rng.randint(0, 1000), -rng.randint(1, 5), -1, 0])])
+                ops.append(['offsetof', rng.choice(KNAMES), rng.choice([rng.randint(0, 1000), -rng.randint(1, 5), -1, 0,
+                                                                       [rng.choice([1, -1]), rng.choice([0, 0, 1, 2, -1, 7])]])])
             elif n in ('bufwrite',):
                 ops.append(['bufwrite', k, r])
             elif n == 'dropview':
